@@ -16,6 +16,13 @@ def run(run):
             if list(ctx.objects) != pc.objects or list(ctx.properties) != pc.properties or list(ctx.bools) != pc.bools:
                 run.fail('Context.objects/properties/bools do not reproduce the input',
                          [ctx.objects, ctx.properties, ctx.bools], [pc.objects, pc.properties, pc.bools], [pc.line])
+        with guard(run, 'Context.bools after the caller edited an earlier result', [pc.line]):
+            got_b = ctx.bools
+            if isinstance(got_b, list) and got_b:
+                got_b.reverse()
+                got_b.append(('junk',))
+            if list(ctx.bools) != pc.bools:
+                run.fail('Context.bools after the caller edited the list returned before', list(ctx.bools)[:4], pc.bools[:4], [pc.line])
         for side, k, labels, call, tomask, req in (
                 ('intension', pc.n, pc.olabels, ctx.intension, pc.pmask, 'intent'),
                 ('extension', pc.m, pc.plabels, ctx.extension, pc.omask, 'extent')):
